@@ -125,7 +125,11 @@ func c04Key(k c04Case, what string) string {
 	if k.UDP {
 		tr = "udp"
 	}
-	if k.UDP && k.Mut.Kind == "reflect" {
+	if k.UDP && k.Mut.Kind == "reflect" && (!k.Mut.Ext || k.Mut.Class == "boundary") {
+		// a whole datagram delivered back to its sender
+		if what == "content-differs" {
+			return "C04/udp/reflection-delivered-to-application"
+		}
 		return "C04/udp/reflection-closes-session"
 	}
 	if k.UDP && k.Mut.Kind == "meta-payload-swap" {
